@@ -35,6 +35,25 @@ def random_H(rng, degree, n_terms):
     return H
 
 
+def duffing_H(rng):
+    """Confining, strongly nonlinear Hamiltonian (coupled Duffing oscillators): at amplitude 1-2 and tolerances 1e-5..1e-8 the adaptive
+    controllers reject steps, which exercises the bookkeeping of accepted/rejected stages in both twins."""
+    H = {}
+    for i in range(3):
+        k = [0] * 6
+        k[3 + i] = 2
+        H[tuple(k)] = 0.5
+        k = [0] * 6
+        k[i] = 2
+        H[tuple(k)] = 0.5 * rng.uniform(0.5, 2.0)
+        k = [0] * 6
+        k[i] = 4
+        H[tuple(k)] = 0.25 * rng.uniform(0.5, 2.0)
+    H[(2, 2, 0, 0, 0, 0)] = rng.uniform(0.1, 0.6)
+    H[(0, 2, 2, 0, 0, 0)] = rng.uniform(0.1, 0.6)
+    return H
+
+
 def rhs_checks(ctx, hs, H, rng, n_pts, label):
     for _ in range(n_pts):
         y = rng.uniform(-0.8, 0.8, 6)
@@ -106,7 +125,8 @@ def twins(ctx, n_ham, reps):
             continue
         # consecutive systems deliberately share name and degree (a memo keyed by anything less than the coefficients would alias them)
         degree = 4 if ih % 3 < 2 else int(rng.integers(3, ctx.pick(6, 9)))
-        H = random_H(rng, degree, int(rng.integers(3, 10)))
+        stiff = (ih % 3 == 1)
+        H = duffing_H(rng) if stiff else random_H(rng, degree, int(rng.integers(3, 10)))
         label = {str(k): round(float(v), 6) for k, v in H.items()}
         hs = pu.hamiltonian_system(H, degree)
         ctx.case("hamiltonian", [ih, ctx.seed, degree, len(H)], nontrivial=True)
@@ -122,8 +142,8 @@ def twins(ctx, n_ham, reps):
         variants = [("fixed", 4), ("fixed", 6), ("fixed", 8), ("adaptive_locked", 5), ("adaptive_locked", 8), ("adaptive_free", 5), ("adaptive_free", 8)]
         for (mode, order) in variants:
             for rep in range(reps):
-                y0 = rng.uniform(-0.25, 0.25, 6)
-                T = float(rng.uniform(0.5, 3.0))
+                y0 = rng.uniform(-0.25, 0.25, 6) * (6.0 if (stiff and mode != "fixed") else 1.0)
+                T = float(rng.uniform(0.5, 3.0)) * (2.0 if (stiff and mode != "fixed") else 1.0)
                 if mode == "fixed":
                     integ = RungeKutta(order=order)
                     grid = np.linspace(0, T, int(rng.choice([50, 200, 600])))
@@ -134,9 +154,9 @@ def twins(ctx, n_ham, reps):
                     grid = np.sort(np.concatenate([[0.0, T], rng.uniform(0, T, int(rng.choice([0, 5, 80])))]))
                     tol = 1e-11
                 else:
-                    rt = float(10.0 ** rng.uniform(-11, -6))
+                    rt = float(10.0 ** (rng.uniform(-8, -5) if stiff else rng.uniform(-11, -6)))
                     integ = AdaptiveRK(order=order, rtol=rt, atol=rt)
-                    grid = np.sort(np.concatenate([[0.0, T], rng.uniform(0, T, int(rng.choice([0, 5, 80])))]))
+                    grid = np.sort(np.concatenate([[0.0, T], rng.uniform(0, T, int(rng.choice([0, 5, 80]) if not stiff else 300))]))
                     tol = 200 * rt
                 if len(np.unique(grid)) < len(grid):
                     continue
